@@ -36,8 +36,11 @@ EXTENDS Naturals, Integers, Sequences, FiniteSets, TLC
 
 CONSTANTS Dim           \* dimension of every "F" layer
 
-\* Named deviations of the code from the intended design (genuine defects reproduced on the real
-\* crate).  Every operator of (3b) takes the set `dv` of deviations in force; dv = {} is the design.
+\* Named deviations of the code from the intended design: genuine defects that were reproduced on
+\* the pinned crate (each has since been repaired by its own `fix:` commit in /repo; the operators
+\* are kept so that TLC can show that each one breaks an invariant and so that Trace_RepDef can name
+\* a regression).  Every operator of (3a)/(3b) takes the set `dv` of deviations in force; dv = {}
+\* is the design.
 \*  AllValidListLevelsFromZero : unravel_offsets on an AllValidList layer computes the visible /
 \*      masking level window from 0 instead of from the levels already consumed by inner layers,
 \*      so a list that starts with a null item (or sits under a null struct) is not seen as a list
